@@ -195,6 +195,7 @@ type World struct {
 
 	finished   bool
 	FailedNew  []string
+	FreeFailed, FreeEndpoints int // free-running mode: constructions that were failed / attempted
 	Fired      []FiredFault
 	TapeUsed   int
 	Choices    int // decisions with more than one candidate
